@@ -18,6 +18,8 @@
      (12 b id)               delete
      (13 tag (ref ...))      caller allocates a cell   -> new handle
      (14 ref tag (ref ...))  caller overwrites a cell
+     (19)                    the caller forgets every root it holds (harness plumbing: dropping
+                             references is not an action of the model; Sep is monotone in `held`)
      (16 b (utc off)? (utc off)?)   Bucket.get (window rounding)       -> new handle
      (17 b (utc off) (utc off))     query_bucket under the query namespace -> new handle
      (18 b (utc off) (utc off))     query_bucket_eventcount
@@ -172,6 +174,7 @@ Definition decode (s : state) (x : sexp) : option (res (state * ret)) :=
       | Some l, Some tg, Some ks => Some (step s (CallerWrite l (Cell tg ks)))
       | _, _, _ => None
       end
+  | L [A 19] => Some (Ok (mkState (heap_of s) (store s) [], RNone))
   | L [A 16; A b; st; en] =>
       match sOptAdt st, sOptAdt en with
       | Some ost, Some oen => Some (bucket_get s b (-1) ost oen)
